@@ -3,6 +3,7 @@ from ..sampler_rules import rule_L1_sampler, rule_L5, rule_L1d_transition, rule_
 from ..pathrules import rule_T3, rule_T8i
 from ..agree import rule_A2_A6, rule_Q3
 from ..lockstep import rule_derived
+from ..persist import rule_P4_sampler
 from ..sampler_rules import SamplerTracker, G_SHELL
 
 LEVEL_TEXT = ('Static lockstep, dirty=>recompute, proposal-accounting and sibling-agreement '
@@ -21,6 +22,9 @@ def run(ctx):
     rule_Q3(ctx)
     rule_A2_A6(ctx)
     rule_L5(ctx)
+    # ... also for a sampler resumed from any checkpoint: statistics of all shells are
+    # rewritten together with the samples they summarise after every batch
+    rule_P4_sampler(ctx)
     ctx.floor('L1', 10, 'member lockstep verdicts')
     ctx.floor('L1d', 2, 'transition-time records')
     ctx.floor('T3', 8, 'dirty sites')
